@@ -1053,6 +1053,13 @@ def gen_c19(ch, spec):
     if spec.get("sweep"):
         cfg["who"] = spec["sweep"]["who"]
     cfg["stagger"] = ch.choice("cfg", [1, 3, 20, 200])
+    if not spec.get("sweep") and ch.chance("cfg", 0.15):
+        # an event-triggered close instead of a step index: a side hangs up the moment its own DTLS transport reports
+        # "connected" (its close_notify then arrives right behind its last handshake flight, while the other side is
+        # still starting its senders and receivers); the survivor closes later and is judged too
+        cfg["who"] = ch.choice("cfg", ["A", "B"])
+        cfg["trigger"] = "dtls-connected"
+        cfg["stagger"] = ch.choice("cfg", [0, 1, 3])
     # the application creates one more data channel right before it calls close() (legal while the connection is not
     # closed - also when the association behind it has already ended because the other side went first)
     cfg["late_channel"] = ch.chance("cfg", 0.3)
@@ -1216,7 +1223,20 @@ class C19World(C03World):
             self.probes["close_with_sctp_" + pc.sctp.state] += 1
 
     def hook(self):
-        if self.close_k is None or self.loop.steps < self.close_k or getattr(self, "_fired", False):
+        if getattr(self, "_fired", False) or len(self.ep) < 2:
+            return
+        if self.cfg.get("trigger") == "dtls-connected":
+            pc = self.ep[self.cfg["who"]].pc
+            seen = getattr(self, "_trigger_step", None)
+            if seen is None:
+                ts = [t.receiver.transport for t in pc.getTransceivers()] + ([pc.sctp.transport] if pc.sctp else [])
+                if any(t.state == "connected" for t in ts):
+                    self._trigger_step = self.loop.steps
+                    self.probes["close_triggered_by_dtls_connected"] += 1
+                return
+            if self.loop.steps < seen + self.cfg["stagger"]:
+                return
+        elif self.close_k is None or self.loop.steps < self.close_k:
             return
         if len(self.ep) < 2:
             return      # the peer connections do not exist yet: the earliest close point is right after construction
